@@ -302,10 +302,12 @@ def _finish(raw, rerun, acl, docs):
     for kind, fine, detail in raw:
         sym = (kind, sorted(fine.items()))
         n = _needs(lambda d2, a2: any((k, sorted(fi.items())) == sym for k, fi, _ in rerun(d2, a2)), acl, docs)
-        sig = {"kind": kind, "needs": n}
+        site, symptom = kind.split(":")
+        sig = {"kind": site, "needs": n}
         if n in ("array element selected", "none"):
+            sig["symptom"] = symptom
             sig.update(fine)
-        out.append((sig, detail))
+        out.append((sig, "[%s] %s" % (symptom, detail)))
     return out
 
 
@@ -329,7 +331,7 @@ def _fragment_raw(old, f, acl):
     except Exception as e:  # noqa
         label = "F:%s:exception:%s" % ("judged" if sat else "unsat", type(e).__name__)
         if sat:
-            viol.append(("fragment-exception", {"exc": type(e).__name__, "msg": _exc_class(e)},
+            viol.append(("fragment:exception", {"exc": type(e).__name__, "msg": _exc_class(e)},
                          "apply_json_fragment(%s, %s, %s) raised %s: %s; the reference selects %s" % (
                 json.dumps(old), json.dumps(f), json.dumps(acl), type(e).__name__, e,
                 sorted(R.format_pointer(p) for p in sel))))
@@ -349,7 +351,7 @@ def _fragment_raw(old, f, acl):
         return label, nontrivial, viol, evals, counters
     if problems:
         p0 = problems[0]
-        viol.append(("fragment-wrong-result", {"how": p0["code"], "where": p0.get("where", "-")},
+        viol.append(("fragment:wrong-result", {"how": p0["code"], "where": p0.get("where", "-")},
                      "apply_json_fragment(%s, %s, %s) = %s; %s" % (
             json.dumps(old), json.dumps(f), json.dumps(acl), json.dumps(r), json.dumps(problems[:4]))))
         return label, nontrivial, viol, evals, counters
@@ -358,12 +360,12 @@ def _fragment_raw(old, f, acl):
         try:
             r2 = jt.apply_json_fragment(R.clone(r), R.clone(f), list(acl))
         except Exception as e:  # noqa
-            viol.append(("fragment-not-idempotent", {"how": "exception:" + type(e).__name__},
+            viol.append(("fragment:not-idempotent", {"how": "exception:" + type(e).__name__},
                          "apply_json_fragment(%s, %s, %s) = %s; applying again raised %s: %s" % (
                 json.dumps(old), json.dumps(f), json.dumps(acl), json.dumps(r), type(e).__name__, e)))
             return label + ":idem-exc", nontrivial, viol, evals, counters
         if not R.same_value(r2, r):
-            viol.append(("fragment-not-idempotent", {"how": "result changes"},
+            viol.append(("fragment:not-idempotent", {"how": "result changes"},
                          "apply_json_fragment(%s, %s, %s) = %s; applying again gives %s" % (
                 json.dumps(old), json.dumps(f), json.dumps(acl), json.dumps(r), json.dumps(r2))))
             label += ":idem-diff"
@@ -434,7 +436,7 @@ def _filter_raw(doc, filters):
     try:
         res = jt.apply_acl_filters(a_doc, a_f)
     except Exception as e:  # noqa
-        viol.append(("acl-filter-exception", {"exc": type(e).__name__, "msg": _exc_class(e)},
+        viol.append(("acl-filter:exception", {"exc": type(e).__name__, "msg": _exc_class(e)},
                      "apply_acl_filters(%s, %s) raised %s: %s" % (json.dumps(doc), json.dumps(filters), type(e).__name__, e)))
         return "A:exception:" + type(e).__name__, False, viol, 1, counters
     if not R.same_value(a_doc, doc):
@@ -445,7 +447,7 @@ def _filter_raw(doc, filters):
     label = "A:%s:%s:%s" % ("viol" if problems else "ok", "sel" if info["selected"] else "nosel",
                             "exact" if info["exact"] else "partial")
     if problems:
-        viol.append(("acl-filter-wrong-result", {"how": problems[0]["code"]},
+        viol.append(("acl-filter:wrong-result", {"how": problems[0]["code"]},
                      "apply_acl_filters(%s, %s) = %s; %s" % (json.dumps(doc), json.dumps(filters), json.dumps(res),
                                                              json.dumps(problems[:4]))))
     return label, nontrivial, viol, 1, counters
